@@ -21,6 +21,7 @@ connect timeout.
 The count compared with the limit is current: at handler exit the peer leaves the map before the request tasks are shut down (C09.3 re-evaluated).
 The affinity looked up is the one last configured: KnownPeers::insert replaces the whole entry, remove deletes it, nothing else writes the map or edits a PeerInfo in place.
 The limit field is (de)serialised by the plain derived impls (serde attributes read from the source: no hook, no custom default).
+Background dials are held back only by dials in flight (C13.4 re-evaluated).
 """
 TRUSTED = ["KnownPeers is a HashMap<PeerId, PeerInfo> behind a RwLock", "quinn closes a connection whose last handle is dropped"]
 NOT_DECIDED = ["truly simultaneous arrivals (excluded by the property)", "slot accounting over histories beyond `len()` reading the live map",
@@ -238,3 +239,14 @@ def run(cx):
             for bb_, i, kind, _ in acc:
                 own = owner_path(prog, bb_)
                 ob.require("serde" in bb_.path or "_::" in bb_.path or own.startswith("<anemo::types::PeerInfo as"), f"PeerInfo.{fld}-writer/{own}", f"PeerInfo.{fld} is {kind}-accessed in {bb_.path}", bb_.path, bb_.loc(i))
+
+    with cx.ob("C10.8", "R-FLOW", "background dials to High-affinity peers are held back only by dials still in flight, never by established connections or the inbound limit: number_to_dial = min(eligible, cap - pending_connections.len()) (C13.4 re-evaluated)") as ob:
+        from . import c13
+        sub = cx.__class__("C10", prog, cx.tier, cx.config, cx.tree, repo=cx.repo)
+        c13.run(sub)
+        w = [x for x in sub.obs if x.oid == "C13.4"]
+        ob.count(sum(x.evals for x in w))
+        bad = [v for x in w for v in x.violations]
+        ob.require(len(w) == 1 and not bad, "background-dials/only-in-flight-dials-count", "background dialing can be blocked by something else than dials in flight: " + "; ".join(str(v.msg) for v in bad)[:300],
+                   "anemo::network::connection_manager::ConnectionManager::handle_connectivity_check")
+
